@@ -240,9 +240,13 @@ class Server:
           places the input in a pipeline with appropriate book-keeping; it then waits for the result,
           which becomes available once another thread gathers the result from (another end of) the pipeline.
         """
+        self._stopped = True
+        # Callers (e.g. the feeder of a stream left open in a previous session) are
+        # rejected until the set-up is complete; an entry accepted before that would
+        # go to a queue nobody reads and occupy a slot for good.
         self._pipeline_notfull = threading.Condition()
-        self._stopped = False
         _enter_server(self)
+        self._stopped = False
         return self
 
     def __exit__(self, *args):
